@@ -477,15 +477,15 @@ func (h *hunter) exhaustive(maxDim int, typesDense, typesSparse []string) {
 					var progs [][]View
 					progs = append(progs, nil, []View{{K: "T"}})
 					for _, s := range allSlices(rows, cols) {
-						progs = append(progs, []View{{"S", s}}, []View{{"S", s}, {K: "T"}})
+						progs = append(progs, []View{{K: "S", A: s}}, []View{{K: "S", A: s}, {K: "T"}})
 					}
 					for _, s := range allSlices(cols, rows) {
-						progs = append(progs, []View{{K: "T"}, {"C", s}}, []View{{K: "T"}, {"S", s}, {K: "T"}})
+						progs = append(progs, []View{{K: "T"}, {K: "C", A: s}}, []View{{K: "T"}, {K: "S", A: s}, {K: "T"}})
 					}
 					// nested windows: every slice of every slice (elements, ij, and two writing operations)
 					for _, s1 := range allSlices(rows, cols) {
 						for _, s2 := range allSlices(s1[1]-s1[0], s1[3]-s1[2]) {
-							for _, pr := range [][]View{{{"S", s1}, {"C", s2}}, {{"S", s1}, {K: "T"}, {"S", [4]int{s2[2], s2[3], s2[0], s2[1]}}}} {
+							for _, pr := range [][]View{{{K: "S", A: s1}, {K: "C", A: s2}}, {{K: "S", A: s1}, {K: "T"}, {K: "S", A: [4]int{s2[2], s2[3], s2[0], s2[1]}}}} {
 								if sparse && len(pr) == 3 {
 									continue
 								}
@@ -496,6 +496,19 @@ func (h *hunter) exhaustive(maxDim int, typesDense, typesSparse []string) {
 								c.Op = Op{Name: "SetAt", I: []int{0, 0, 101}}
 								h.check(c)
 							}
+						}
+					}
+					if !sparse {
+						// the same programs with discarded T()/Slice()/T().T() calls on the object each step starts from
+						for _, pr := range append([][]View{}, progs...) {
+							if len(pr) == 0 {
+								continue
+							}
+							q := append([]View{}, pr...)
+							for i := range q {
+								q[i].P = 7
+							}
+							progs = append(progs, q)
 						}
 					}
 					for _, pr := range progs {
@@ -573,6 +586,11 @@ func hunt(o Opts) {
 			h.exhaustiveBin(4, 4, "Int")
 			h.exhaustiveBin(4, 3, "Float32")
 		}
+		// 2c. Equals / EQUALS between every two equally shaped windows (and transposed windows) of one 3x3 parent,
+		// every dense element type: the result is decided by the elements, not by the storage the sides share
+		for _, tn := range typeNames {
+			h.exhaustiveEquals(3, 3, tn)
+		}
 		rngB := NewRng(o.Seed*1000003 + 7927).Split()
 		for i := 0; i < o.N; i++ {
 			h.checkBin(genBCase(rngB.Split(), i))
@@ -630,11 +648,11 @@ func (h *hunter) shrinkSeeds() {
 				vals := distinctVals(rows*cols, true)
 				progs := [][]View{nil, {{K: "T"}}}
 				for _, s := range allSlices(rows, cols) {
-					progs = append(progs, []View{{"S", s}}, []View{{"S", s}, {K: "T"}})
+					progs = append(progs, []View{{K: "S", A: s}}, []View{{K: "S", A: s}, {K: "T"}})
 				}
 				if !q.sparse {
 					for _, s := range allSlices(cols, rows) {
-						progs = append(progs, []View{{K: "T"}, {"C", s}})
+						progs = append(progs, []View{{K: "T"}, {K: "C", A: s}})
 					}
 				}
 				for _, pr := range progs {
@@ -660,7 +678,7 @@ func (h *hunter) exhaustiveOne(rows, cols int) {
 		var progs [][]View
 		progs = append(progs, nil, []View{{K: "T"}})
 		for _, s := range allSlices(rows, cols) {
-			progs = append(progs, []View{{"S", s}}, []View{{"S", s}, {K: "T"}})
+			progs = append(progs, []View{{K: "S", A: s}}, []View{{K: "S", A: s}, {K: "T"}})
 		}
 		for _, pr := range progs {
 			_, n, k, ok := applyOracle(rows, cols, pr)
